@@ -16,6 +16,13 @@ Curvature(fld) ==    \* 1/2 sum_c (Laplacian of component c)^2
     RMul(Half, RSumSeq(E([c \in 1..Len(fld) |-> RSq(RSumSeq(E([j \in 1..Len(fld) |-> D2(fld[c].Q, j, j)])))])))
 SqGrad(fld, p) == LET J == Jacobian(fld, p) IN
     RSumSeq(E([c \in 1..Len(fld) |-> RSumSeq(E([j \in 1..Len(fld) |-> RSq(J[c][j])]))]))
+\* sum_ij |J_ij|^3 and sum_ij J_ij^4 (grad_loss with p = 3 / p = 4, q = 1): odd powers take the ABSOLUTE value first
+CubGrad(fld, p) == LET J == Jacobian(fld, p) IN
+    RSumSeq(E([c \in 1..Len(fld) |-> RSumSeq(E([j \in 1..Len(fld) |-> RMul(RAbs(J[c][j]), RSq(J[c][j]))]))]))
+QuartGrad(fld, p) == LET J == Jacobian(fld, p) IN
+    RSumSeq(E([c \in 1..Len(fld) |-> RSumSeq(E([j \in 1..Len(fld) |-> RSq(RSq(J[c][j]))]))]))
+SumGrad(fld, p) == LET J == Jacobian(fld, p) IN       \* plain sum of the partial derivatives (p = 0)
+    RSumSeq(E([c \in 1..Len(fld) |-> RSumSeq(E([j \in 1..Len(fld) |-> J[c][j]]))]))
 AbsGrad(fld, p) == LET J == Jacobian(fld, p) IN
     RSumSeq(E([c \in 1..Len(fld) |-> RSumSeq(E([j \in 1..Len(fld) |-> RAbs(J[c][j])]))]))
 Diffusion(fld, p) == RMul(Half, SqGrad(fld, p))
@@ -57,6 +64,9 @@ RLaws == st = 1 =>
     \* null spaces: bending and curvature vanish exactly for affine fields; gradient terms for translations
     /\ IsAffine(ca.fld) => Bending(ca.fld) = Zero /\ Curvature(ca.fld) = Zero
     /\ RLe(Zero, Bending(ca.fld)) /\ RLe(Zero, Curvature(ca.fld))
+    \* gradient norms are non-negative and even in the field at every probe, for every power
+    /\ \A k \in 1..Len(Probes(ca.n)) : LET p == Pos(Probes(ca.n)[k], ca.h) IN
+          RLe(Zero, CubGrad(ca.fld, p)) /\ RLe(Zero, QuartGrad(ca.fld, p)) /\ RLe(Zero, AbsGrad(ca.fld, p))
 
 REmit == (EmitCases /\ st = 1) =>
     LET D == Len(ca.n)  P == Probes(ca.n) IN
@@ -73,6 +83,6 @@ REmit == (EmitCases /\ st = 1) =>
                    probes |-> E([k \in 1..Len(P) |->
                         LET p == Pos(P[k], ca.h) IN
                         [i |-> P[k], diffusion |-> Diffusion(ca.fld, p), divergence |-> DivLoss(ca.fld, p), tv |-> TV(ca.fld, p),
-                         sqgrad |-> SqGrad(ca.fld, p),
+                         sqgrad |-> SqGrad(ca.fld, p), cubgrad |-> CubGrad(ca.fld, p), quartgrad |-> QuartGrad(ca.fld, p), sumgrad |-> SumGrad(ca.fld, p),
                          elasticity |-> E([q \in 1..2 |-> Elasticity(ca.fld, p, IF q = 1 THEN RI(2) ELSE Zero, IF q = 1 THEN R(1,2) ELSE One)])]])]))
 =============================================================================
